@@ -1,7 +1,7 @@
 //! C19: eager, lazy and on-demand partial compilation are observationally equivalent.
 //! Every C08 scenario is rendered 1..3 times per parser under the three policies side by side.
 use crate::ast::*;
-use crate::c08::scenario;
+use crate::c08::{scenario, Scenario};
 use crate::gen::Gen;
 use crate::run::*;
 use crate::Ctx;
@@ -11,7 +11,74 @@ pub fn try_build(partials: &[PartialDef], policy: Policy) -> Option<liquid::Pars
     catch_unwind(AssertUnwindSafe(|| build_parser(partials, policy))).ok()
 }
 
+/// one scenario under the three policies, rendered `reps` times each
+fn three_ways(ctx: &mut Ctx, sc: &Scenario, reps: usize) {
+    let text = src_tmpl(&sc.main);
+    let mut all: Vec<Vec<Obs>> = Vec::new();
+    let mut build_failed = false;
+    for pol in [Policy::Eager, Policy::Lazy, Policy::OnDemand] {
+        match try_build(&sc.partials, pol) {
+            None => {
+                build_failed = true;
+                all.push(vec![]);
+            }
+            Some(p) => all.push((0..reps).map(|_| render_text(&p, &text, &sc.data)).collect()),
+        }
+    }
+    let first = all[0].first().cloned().unwrap_or(Obs::Panic("build".into()));
+    let kind = if build_failed {
+        "BUILD-FAILED"
+    } else if all.iter().any(|rs| rs.iter().any(|r| r.tokens() != first.tokens())) {
+        "POLICIES-DIFFER"
+    } else {
+        "scenario"
+    };
+    ctx.emit(render_case("c19", &format!("{}:{}", kind, reps), &sc.main, &sc.data, &sc.partials, &first));
+}
+
+/// every combination of {valid, unparsable, absent} for a partial `row` and its `row.liquid` sibling,
+/// reached through every form of `include` / `render` (literal and variable name, empty and non-empty
+/// collections)
+fn sibling_grid(ctx: &mut Ctx) {
+    use liquid_core::model::{Object, Value};
+    let states: [Option<Result<Vec<Node>, String>>; 3] = [Some(Ok(vec![text("<row:"), out(var("it")), text(">")])), Some(Err("{% if it %}never closed".into())), None];
+    let dotted: [Option<Result<Vec<Node>, String>>; 3] = [Some(Ok(vec![text("[dotted:"), out(var("it")), text("]")])), Some(Err("{{".into())), None];
+    let mut data = Object::new();
+    data.insert("items".into(), Value::Array((1..=3).map(Value::scalar).collect::<Vec<_>>()));
+    data.insert("none".into(), Value::Array(vec![]));
+    data.insert("which".into(), Value::scalar("row"));
+    data.insert("it".into(), Value::scalar("caller"));
+    for a in &states {
+        for b in &dotted {
+            let mut partials: Vec<PartialDef> = Vec::new();
+            if let Some(p) = a {
+                partials.push(("row".into(), p.clone()));
+            }
+            if let Some(p) = b {
+                partials.push(("row.liquid".into(), p.clone()));
+            }
+            for name in [lit_s("row"), var("which"), lit_s("row.liquid")] {
+                let mains: Vec<Vec<Node>> = vec![
+                    vec![Node::Include(name.clone(), vec![])],
+                    vec![Node::Include(name.clone(), vec![("it".into(), lit_i(7))])],
+                    vec![Node::Render(name.clone(), RForm::Plain, vec![("it".into(), lit_i(7))])],
+                    vec![Node::Render(name.clone(), RForm::With(lit_i(8), "it".into()), vec![])],
+                    vec![Node::Render(name.clone(), RForm::For(RangeE::Arr(var("items")), "it".into()), vec![])],
+                    vec![Node::Render(name.clone(), RForm::For(RangeE::Arr(var("none")), "it".into()), vec![])],
+                    vec![Node::Render(name.clone(), RForm::For(RangeE::Counted(lit_i(1), lit_i(2)), "it".into()), vec![])],
+                    vec![text("a"), Node::Render(name.clone(), RForm::For(RangeE::Arr(var("items")), "it".into()), vec![]), text("|"), Node::Render(name.clone(), RForm::Plain, vec![])],
+                ];
+                for main in mains {
+                    let sc = Scenario { main, partials: partials.clone(), data: data.clone() };
+                    three_ways(ctx, &sc, 2);
+                }
+            }
+        }
+    }
+}
+
 pub fn run(ctx: &mut Ctx) {
+    sibling_grid(ctx);
     let n = if ctx.tier_thorough { 100_000 } else { 4_000 };
     let mut g = Gen::new(ctx.seed ^ 0xC19);
     for i in 0..n {
